@@ -1,4 +1,5 @@
 import ParolModel.Proofs.LaMain
+import ParolModel.Proofs.LaOrder3
 /-! # C07 — Lookahead automata encode exactly the lookahead sets
 
 Property text: *For every non-terminal of an accepted LL(k) grammar, the compiled (minimized)
@@ -126,25 +127,28 @@ theorem unite_k_fixed_example :
      | some (.ok d) => (compileDfa d []).map (fun c => (c.k, eval c true [7, 5]))
      | _ => none) = some (2, EvalRes.ok 2) := by decide
 
-/-- **Order independence (C24 part)**, full statement: the minimised automaton, including its
-    state numbering, does not depend on the hash-map iteration orders. Not proved in this form (it
-    needs confluence of the merging of states with equal neighbour lists together with the canonical
-    renumbering); it is checked on every explored automaton by running the model under several
-    choice streams and the real code repeatedly (request `ord`). -/
-def MinimizeOrderIndep : Prop :=
-  ∀ (c : LaDfa), CompiledOk c → ∀ ch1 ch2 : List Nat, minimizeC c ch1 = minimizeC c ch2
+/-- **Order independence (C24 part)**: the minimised automaton — transitions, state numbering, `k` —
+    does not depend on the hash-map iteration orders of the two `group_by` calls (on automata whose
+    accepting states are leaves). Both merging phases compute the quotient by a fixed equivalence
+    (accepting states of one production; the least equivalence closed under "equal neighbour lists"),
+    every class keeps its smallest member, and renumbering is deterministic. -/
+theorem minimize_order_indep {c c1 c2 : LaDfa} {ch1 ch2 : List Nat} (hc : CompiledOk c)
+    (h1 : minimizeC c ch1 = some c1) (h2 : minimizeC c ch2 = some c2) : c1 = c2 :=
+  minimizeC_unique hc h1 h2
 
-/-- Proved part: whatever the iteration orders, the results predict the same production on every
-    token string, have the same `k` and are strictly sorted. (What may still differ is the numbering
-    of the states and which of several equivalent states survives — not the predictions.) -/
-theorem minimize_order_indep_partial {c c1 c2 : LaDfa} {ch1 ch2 : List Nat} (hc : CompiledOk c)
-    (h1 : minimizeC c ch1 = some c1) (h2 : minimizeC c ch2 = some c2) :
-    (∀ w, runRef c1 0 c1.prod0 w = runRef c2 0 c2.prod0 w) ∧ c1.k = c2.k ∧
-      sortedTrans c1.trans = true ∧ sortedTrans c2.trans = true := by
-  refine ⟨?_, ?_, (compiled_wf hc h1).1, (compiled_wf hc h2).1⟩
-  · intro w
-    rw [minimize_preserves_run hc h1 w, minimize_preserves_run hc h2 w]
-  · rw [(compiled_wf hc h1).2, (compiled_wf hc h2).2]
+/-- Consequence for a non-terminal's automaton: for non-empty, pairwise disjoint, prefix-free tuple
+    sets the compiled automaton is the same under all iteration orders. -/
+theorem compiled_order_indep {k : Nat} {sets : List (Nat × List Tuple)} {d : LDfa} {c1 c2 : LaDfa}
+    {ch1 ch2 : List Nat} (ok : SetsOk sets) (hd : uniteAll true k sets = some (.ok d))
+    (h1 : compileDfa d ch1 = some c1) (h2 : compileDfa d ch2 = some c2) : c1 = c2 :=
+  minimize_order_indep (compiledOk_of_sets ok hd) h1 h2
+
+/-- Weaker, semantic form (kept because it needs none of the quotient machinery): whatever the
+    iteration orders, the results predict the same production on every token string. -/
+theorem minimize_order_indep_semantic {c c1 c2 : LaDfa} {ch1 ch2 : List Nat} (hc : CompiledOk c)
+    (h1 : minimizeC c ch1 = some c1) (h2 : minimizeC c ch2 = some c2) (w : List Nat) :
+    runRef c1 0 c1.prod0 w = runRef c2 0 c2.prod0 w := by
+  rw [minimize_preserves_run hc h1 w, minimize_preserves_run hc h2 w]
 
 /-! Non-vacuity: the hypotheses are satisfiable and the model succeeds. `exSets` are the tuple
 sets of `ItemsList`-like productions: 4 ↦ {`5 6`}, 5 ↦ {`0`, `5 0`}. -/
